@@ -743,6 +743,17 @@ _KERNELS['nanargmax'] = _nanarg('nanargmax')
 
 
 def _reduce(name, a, axis=None, out=None, keepdims=False, dtype=None, **kw):
+    if name in ('median', 'nanmedian') and kw.get('overwrite_input', None) is not None:
+        # overwrite_input=True lets NumPy reorder the input buffer (np.partition in place; "contents undefined"): modelled as
+        # an in-place sort along the reduced axis, after the result has been computed
+        ow = kw.pop('overwrite_input')
+        r = _reduce(name, a, axis, out, keepdims, dtype, **kw)
+        if ow and isinstance(a, ndarray) and not isinstance(axis, (tuple, list)):
+            if axis is None:
+                a.ravel().sort()        # reaches the input only when ravel() is a view, as in NumPy
+            else:
+                a.sort(axis=axis)
+        return r
     if out is not None or keepdims or dtype is not None or kw:
         raise ModelGap("reduction kwargs %r" % (sorted(kw) or 'out/keepdims/dtype'))
     if isinstance(a, MaskedArray):
